@@ -89,6 +89,13 @@ CLAIMED["C18"] = (
     "DESIGN.md §4 C18",
 )
 
+CLAIMED["C19"] = (
+    "exhaustive product read placement x depth x mode x world, one transition per output kind, executed on genotype()",
+    "Every combination of read placement (none, neutral only, pseudogene only, gene only, gene+pseudogene without neutral, everything), depth (below / just above the minimum / full), mode (profile file, BAM profile, user-supplied structure), output kind (none, .aldy, .vcf, .simple) and generated database (either strand, with/without pseudogene) is genotyped end to end: where the property demands it the run must end in an AldyException, write no solution rows and one empty simple line; pseudogene-only evidence must be called as the whole-gene deletion; the full sample as *1/*1.",
+    "Trusted: the simulator. Depth exactly at the documented minimum is avoided.",
+    "DESIGN.md §4 C19",
+)
+
 PENDING_REASON = "check not built yet in this session (design in DESIGN.md §4); not claimed until it runs silently on the unchanged tree"
 NOT_APPLICABLE = {}
 
